@@ -184,6 +184,8 @@ JudgeFragQ(e, q) ==
         \cup V(q.hdrOk /\ ~hdr.pad => hdr.len + 2 = r.len, <<"C06">>, "Frag.GseLenIsWritten")
         \cup V(q.lenOk => kindOk, <<"C06">>, "Frag.StartEndBits")
         \cup V(kindOk => wf, <<"C06">>, "Frag.Parses")
+        \* C11: a successful continuation call emits the final CRC-bearing packet or an intermediate packet
+        \cup V(ok /\ inRange /\ ~mustRej => wf, <<"C11">>, "Frag.OkIsEndOrIntermediate")
         \cup V(wf => w.fragId = c.id, <<"C06">>, "Frag.FragId")
         \cup V(wf /\ r.t = "fragmented" => n >= 1, <<"C11">>, "Frag.NoEmptyFragment")
         \cup V(stepOk, <<"C11">>, "Frag.Step")
@@ -197,7 +199,7 @@ JudgeFragQ(e, q) ==
            \cup H(wf /\ r.t = "fragmented" /\ inRange, "Frag.Step")
            \cup H(wf /\ r.t = "completed" /\ inRange /\ ~mustRej, "Frag.End")
            \cup H(wf /\ r.t = "completed", "Frag.EndCarriesCtxCrc")
-           \cup H(TRUE, "Frag.SenderUntouched")
+           \cup H(TRUE, "Frag.SenderUntouched") \cup H(ok /\ inRange /\ ~mustRej, "Frag.OkIsEndOrIntermediate")
   IN  [ bad |-> verdicts, hits |-> hs,
         cls |-> <<"encap_frag", ResTag(r), SizeClass(P), SizeClass(B),
                   IF c.sent > P THEN 3 ELSE IF c.sent = P THEN 2 ELSE IF c.sent = 0 THEN 0 ELSE 1,
